@@ -27,6 +27,8 @@ def main():
             print(p, "exit", r.returncode, v[:1], "|", res[p]["tail"])
     finally:
         subprocess.run(["git", "-C", "/repo", "checkout", "--", "."])
+        # a failed translation leaves the previous Tables.v in place: regenerate from the clean tree
+        subprocess.run(["python3", os.path.join(ROOT, "tools", "gen_tables.py"), "/repo"], stdout=subprocess.DEVNULL)
     print(json.dumps(res))
     return 0
 
